@@ -13,6 +13,8 @@ pub mod c04;
 pub mod c05;
 pub mod c06;
 pub mod c07;
+pub mod c09;
+pub mod c10;
 pub mod c13;
 pub mod c14;
 
@@ -47,7 +49,7 @@ pub struct CheckDef {
 }
 
 pub fn all() -> Vec<CheckDef> {
-    vec![c01::def(), c02::def(), c03::def(), c04::def(), c05::def(), c06::def(), c07::def(), c13::def(), c14::def()]
+    vec![c01::def(), c02::def(), c03::def(), c04::def(), c05::def(), c06::def(), c07::def(), c09::def(), c10::def(), c13::def(), c14::def()]
 }
 
 pub fn find(id: &str) -> Option<CheckDef> {
